@@ -102,8 +102,10 @@ def edges_of(prog, b):
             sigs = [sig(o) for o in ops]
             if t["msg"] in ("Overflow:Add", "Overflow:Mul"):
                 sigs = sorted(sigs)
+            srt = t["msg"] in ("Overflow:Add", "Overflow:Mul")
             yield {"kind": t["msg"], "sig": ",".join(sigs), "pos": pos, "ln": ln, "ops": ops, "mac": mac,
-                   "cond": b.term(t["cond"], pos), "expected": t["expected"]}
+                   "cond": b.term(t["cond"], pos), "expected": t["expected"],
+                   "resig": (lambda o, srt=srt: ",".join(sorted(sig(x) for x in o) if srt else [sig(x) for x in o]))}
         elif t["k"] == "call":
             callee = t.get("resolved") or t.get("callee") or ""
             cn = canon(callee)
@@ -115,7 +117,8 @@ def edges_of(prog, b):
             for rx, kind in MAY_PANIC:
                 if rx.search(cn):
                     args = [b.term(a, pos) for a in t["args"]]
-                    yield {"kind": kind, "sig": f"{'::'.join(cn.split('::')[-2:])}({','.join(sig(a) for a in args)})", "pos": pos, "ln": ln, "ops": args, "mac": mac, "callee": cn}
+                    yield {"kind": kind, "sig": f"{'::'.join(cn.split('::')[-2:])}({','.join(sig(a) for a in args)})", "pos": pos, "ln": ln, "ops": args, "mac": mac, "callee": cn,
+                           "resig": (lambda o, cn=cn: f"{'::'.join(cn.split('::')[-2:])}({','.join(sig(a) for a in o)})")}
                     break
             else:
                 if SILENT.search(cn):
@@ -144,6 +147,11 @@ def edges_of(prog, b):
 def const_of(t):
     t = deep_strip(t)
     return t[1] if t[0] == 'const' and isinstance(t[1], int) else None
+
+
+def _mutable_self(b, param):
+    ty = b.local_ty(param)
+    return ty.k == 'ref' and bool(ty.j.get("mut"))
 
 
 def auto_discharge(b, e):
@@ -175,6 +183,16 @@ def auto_discharge(b, e):
         if is_call(d, "NonZero::get"):
             return "div_ceil by NonZero::get(): divisor type excludes zero"
         return None
+    if k == "index" and len(e["ops"]) == 2:
+        from ..pat import unref
+        cont, idx = unref(e["ops"][0]), unref(e["ops"][1])
+        if idx[0] == 'ok' and is_call(unref(idx[1]), "binary_search_by_key", "binary_search_by", "binary_search"):
+            hay = unref(unref(idx[1])[2][0])
+            if is_call(hay, "Deref::deref"):
+                hay = unref(hay[2][0])
+            if hay == cont and hay[0] == 'field' and unref(hay[1])[0] == 'param' and not _mutable_self(b, unref(hay[1])[1]):
+                return "index is the Ok(i) of a binary search over the same (immutably borrowed) vector: i < len"
+        return None
     if k == "BoundsCheck":
         ln_, idx = e["ops"]
         facts = b.facts_at(e["pos"])
@@ -182,6 +200,20 @@ def auto_discharge(b, e):
             return "dominated by index < len"
         return None
     return None
+
+
+def phi_alternatives(b, e):
+    if "resig" not in e or "var" not in e["sig"] or not e["ops"]:
+        return None
+    from ..outcomes import alternatives
+    alts = alternatives(b, e["pos"], ('agg', 'ops', None, tuple(e["ops"])))
+    if len(alts) <= 1:
+        return None
+    out = []
+    for p2, t2 in alts:
+        ops = list(t2[3])
+        out.append(dict(e, ops=ops, pos=p2, sig=e["resig"](ops)))
+    return out
 
 
 def divisor_of(b, e):
@@ -303,6 +335,10 @@ def _iter_source(t):
             return c.split("::")[-1] + " over a slice"
         if c.endswith("RangeInclusive::new"):
             return "RangeInclusive of integers"
+        if c.endswith("GuestMemory::iter"):
+            # the region iterator of a guest memory: finite by the trait's contract; the provided methods (last_addr's fold,
+            # num_regions) already consume it to the end
+            return "the regions of a GuestMemory (GuestMemory::iter)"
         return None
     if t[0] == 'agg' and str(t[1]).endswith("ops::Range"):
         return "Range of integers"
@@ -350,6 +386,26 @@ def run(ctx, progs):
                     table_hits[row] = table_hits.get(row, 0) + 1
                     ctx.ob("A4.tabled", inst, True, where, f"[{row[3]}] {row[4]}")
                     continue
+                # an operand that is assigned on several paths (match arms, result of an inlined helper): decide each definition
+                # separately, at the place of the definition (its facts are a subset of those on the way to this edge)
+                alts = phi_alternatives(b, e)
+                if alts:
+                    res = []
+                    for e2 in alts:
+                        w2 = auto_discharge(b, e2)
+                        if w2:
+                            res.append(("auto", w2, e2))
+                            continue
+                        r2 = table_lookup(b, fnkey, e2)
+                        if r2:
+                            table_hits[r2] = table_hits.get(r2, 0) + 1
+                            res.append(("tabled", f"[{r2[3]}] {r2[4]}", e2))
+                            continue
+                        res.append((None, e2["sig"], e2))
+                    if all(r[0] for r in res):
+                        n_auto += 1
+                        ctx.ob("A4.auto", inst, True, where, "operand assigned on several paths; each definition decided on its own: " + "; ".join(f"{r[2]['sig']}: {r[1]}" for r in res))
+                        continue
                 ctx.ob("A4.unreviewed", inst, False, where,
                        f"panic / silent-wrap edge `{e['kind']}` on {e['sig']} is neither discharged by a dominating fact nor in the reviewed-edge table: "
                        "a guest-chosen value reaching it can crash (or silently wrap in release builds)")
